@@ -45,7 +45,8 @@ ALPHABET = [
     ("window:diff", 1), ("window:same", 0), ("window:invalid", 0), ("window:alias", 0),
     ("lag:diff", 1), ("lag:same", 0), ("lag:out", 1), ("lag:any", 0),
     ("ar_order:diff", 1), ("ar_order:same", 0), ("ar_order:neg", 0), ("ar_order:big", 1), ("ar_order:none", 0),
-    ("ar_order:zero", 0), ("ma_order:zero", 0), ("data:const", 0), ("data:zimag", 0), ("plot", 0), ("mutate_source", 0),
+    ("ar_order:zero", 0), ("ma_order:zero", 0), ("data:const", 0), ("data:zimag", 0), ("plot", 0), ("mutate_source", 0), ("copy:shallow", 0), ("copy:deep", 0),
+    ("ma_order:eq_ar", 0), ("ar_order:eq_ma", 0), ("alias_periodogram", 0),
     ("ma_order:diff", 1), ("ma_order:same", 0), ("ma_order:neg", 0), ("ma_order:none", 0),
     ("npscalar:ar_order", 0), ("npscalar:ma_order", 0), ("npscalar:lag", 0), ("npscalar:sampling", 0),
     ("npscalar:scale", 0), ("npscalar:NFFT", 0),
@@ -56,13 +57,15 @@ ALPHABET = [
 ]
 ALPHA_NAMES = [a for a, _ in ALPHABET]
 CORE_NAMES = [a for a, c in ALPHABET if c]
-FAULTY = {"lag:any", "ar_order:zero", "ma_order:zero", "data:const", "sides:invalid", "NFFT:invalid", "NFFT:lt", "scale:invalid", "detrend:invalid", "window:invalid",
+FAULTY = {"ma_order:eq_ar", "ar_order:eq_ma", "lag:any", "ar_order:zero", "ma_order:zero", "data:const", "sides:invalid", "NFFT:invalid", "NFFT:lt", "scale:invalid", "detrend:invalid", "window:invalid",
           "lag:out", "ar_order:neg", "ar_order:big", "ma_order:neg", "ma_order:none", "ar_order:none"}
 MODES = ("fault_free", "natural", "injected", "mixed")
 
 
 def applicable(aname, cls):
     head = aname.split(":")[0]
+    if head == "alias_periodogram":
+        return cls == "Periodogram"
     if head == "npscalar":
         a = aname.split(":")[1]
         return a in ("sampling", "scale", "NFFT") or a in sut.EXTRA_ATTRS[cls]
@@ -204,6 +207,7 @@ def gen_cfg(rng, cls=None, cplx=None, N=None, mode=None):
     mode = mode or rng.choice(MODES)
     data = gen_signal(rng, N, cplx)
     return {
+        "_grng": rng.getrandbits(32),
         "cls": cls, "cplx": bool(cplx), "N": N, "mode": mode,
         "data": enc_data(data),
         "init": gen_init(rng, cls, N, cplx, mode),
@@ -222,6 +226,15 @@ def initial_snapshot(cfg):
 # the run
 # ---------------------------------------------------------------------------
 
+def seed_global_rngs(cfg):
+    """The process-global generators (numpy.random, random) are a source of nondeterminism the code under test
+    may draw from even though the pinned tree does not: they are seeded from the run's configuration, so that
+    a run - and its replay in another process - is a pure function of its seed whatever the code does."""
+    g = int(cfg.get("_grng", 0)) & 0xFFFFFFFF
+    np.random.seed(g)
+    random.seed(g)
+
+
 class Violation(Exception):
     def __init__(self, clause, step, detail):
         Exception.__init__(self, "%s at step %d: %s" % (clause, step, detail))
@@ -235,6 +248,7 @@ class Run(object):
 
     def __init__(self, cfg, pristine=None, defer=False, install_plane=True):
         self.cfg = cfg
+        seed_global_rngs(cfg)
         self.defer = defer          # evaluate references at the end of the run (multi-object runs)
         self.pending = []
         self.cls = cfg["cls"]
@@ -303,6 +317,9 @@ class Run(object):
         if k == "run":
             p.run()
             return None
+        if k == "alias_periodogram":
+            p.periodogram()
+            return None
         if k == "conv":
             return p.get_converted_psd("".join(list(op["sides"])))
         if k == "power":
@@ -315,6 +332,11 @@ class Run(object):
                 p.plot(norm=op.get("norm", False), sides=op.get("sides"))
             finally:
                 pylab.close("all")
+            return None
+        if k == "copy":
+            # the caller continues with a copy (shallow or deep) of the object: an object in its own right
+            import copy as _copy
+            self.p = (_copy.deepcopy if op.get("deep") else _copy.copy)(p)
             return None
         if k == "mutate_source":
             src = getattr(self, "last_source", None)
@@ -379,6 +401,7 @@ class Run(object):
             val = None
             exc = e
             outcome = "raised:" + type(e).__name__
+        p = self.p                      # a `copy` operation replaces the object the caller goes on with
         fired = self.plane.fired - fired0
         recomputed = self.plane.calls[0] - calls0
         self.bump("op:%s:%s" % (k if k not in ("set", "reassign") else k + ":" + op["attr"],
@@ -407,12 +430,12 @@ class Run(object):
 
         if k == "reassign" and exc is None and not fired:
             self.reassigned.append(op["attr"])
-        elif k in ("str", "power", "conv", "plot", "mutate_source") and exc is None and not fired:
+        elif k in ("str", "power", "conv", "plot", "mutate_source", "copy") and exc is None and not fired:
             pass                      # observations (or the caller touching its own buffer): keep the remembered psd
         elif k != "read":
             self.last_psd = None
             self.reassigned = []
-        if k in ("set", "call", "run") or fired:
+        if k in ("set", "call", "run", "alias_periodogram") or fired:
             self.dirty = True
 
         # ---- checked reads --------------------------------------------
@@ -488,7 +511,7 @@ class Run(object):
             self.sides_expect = None
         else:
             self.sides_expect = None
-        if k in ("read", "call", "run", "conv", "power") and exc is None and not fired:
+        if k in ("read", "call", "run", "conv", "power", "alias_periodogram") and exc is None and not fired:
             self.has_psd = True
 
         # ---- NFFT given as None / 'nextpow2' resolves against the CURRENT data, as it does in a constructor
@@ -671,6 +694,15 @@ def concretize(aname, rng, run):
         return None
     if head in ("read", "call", "run", "str", "power"):
         return {"op": head}
+    if head == "copy":
+        return {"op": "copy", "deep": parts[1] == "deep"}
+    if head == "alias_periodogram":
+        # FourierSpectrum.periodogram(), documented as an alias of Periodogram: a third explicit computation.
+        # Only while scale_by_freq is False: with True the pinned __call__ scales twice and the alias once (a
+        # normalisation defect of C08's territory, section 9), so the two legitimately-by-the-code differ.
+        if p.scale_by_freq is not False:
+            return None
+        return {"op": "alias_periodogram"}
     if head == "mutate_source":
         # the caller re-uses the buffer it handed to `data` earlier (fills it with other numbers, in place)
         src = getattr(run, "last_source", None)
@@ -812,6 +844,11 @@ def concretize(aname, rng, run):
         cur = getattr(p, head)
         if vc == "zero":
             return {"op": "set", "attr": head, "value": 0}
+        if vc in ("eq_ar", "eq_ma"):
+            other = p.ar_order if head == "ma_order" else p.ma_order
+            if other is None:
+                return None
+            return {"op": "set", "attr": head, "value": other}
         if vc == "neg":
             return {"op": "set", "attr": head, "value": -rng.randrange(1, 4)}
         if vc == "none":
@@ -1132,6 +1169,8 @@ def describe(cfg, ops):
             out.append("plot(norm=%r, sides=%r)" % (o.get("norm"), o.get("sides")))
         elif k == "mutate_source":
             out.append("<caller overwrites the array it assigned to data, in place>")
+        elif k == "copy":
+            out.append("p = copy.%s(p)" % ("deepcopy" if o.get("deep") else "copy"))
         else:
             out.append(k + "()")
     head = "%s(%s[%d], %s) %s" % (cfg["cls"], "complex" if cfg["cplx"] else "real", len(cfg["data"]["v"]),
